@@ -14,7 +14,6 @@ namespace Sched
 
 structure SimIn where
   agg : Bool
-  json : Bool
   cap : Nat
   table : List (Option Bytes)
   tail : List Bytes
@@ -29,6 +28,7 @@ structure SimOut where
   reader : RdPhase
   rend : RnPhase
   errs : Nat
+  rdErrs : Nat
   joinErr : Bool
   written : Bytes
   consumed : Nat
@@ -68,7 +68,7 @@ def candidates (i : SimIn) (c : Cfg Nat Bytes) (s : State Nat Bytes) (chunks : L
 def simLoop (i : SimIn) (c : Cfg Nat Bytes) :
     Nat → State Nat Bytes → List Bytes → Nat → Nat → Nat → SimOut
   | 0, s, _, _, mx, n =>
-    { reader := s.reader, rend := s.rend, errs := s.errs, joinErr := s.joinErr, written := s.written,
+    { reader := s.reader, rend := s.rend, errs := s.errs, rdErrs := s.rdErrs, joinErr := s.joinErr, written := s.written,
       consumed := s.consumed.length, maxChan := mx, steps := n, stuck := true }
   | fuel + 1, s, chunks, rnd, mx, n =>
     let r1 := lcg rnd
@@ -79,7 +79,7 @@ def simLoop (i : SimIn) (c : Cfg Nat Bytes) :
       | none => none)
     match en[(r2 / 65536) % en.length]? with
     | none =>
-      { reader := s.reader, rend := s.rend, errs := s.errs, joinErr := s.joinErr, written := s.written,
+      { reader := s.reader, rend := s.rend, errs := s.errs, rdErrs := s.rdErrs, joinErr := s.joinErr, written := s.written,
         consumed := s.consumed.length, maxChan := mx, steps := n, stuck := false }
     | some (l, s') =>
       let chunks' := match l with
@@ -88,7 +88,7 @@ def simLoop (i : SimIn) (c : Cfg Nat Bytes) :
       simLoop i c fuel s' chunks' r2 (max mx s'.chan.length) (n + 1)
 
 def simulate (i : SimIn) : SimOut :=
-  let c := tableCfg i.table i.tail i.agg i.json i.cap
+  let c := tableCfg i.table i.tail i.agg i.cap
   let bytes := (i.chunks.map List.length).foldl (· + ·) 0
   let fuel := 16 * (bytes + i.table.length + i.tail.length + i.chunks.length) + 64
   simLoop i c fuel (init c) i.chunks (lcg (i.seed + 1)) 0 0
@@ -114,19 +114,19 @@ def rowTok (t : String) : Option Bytes :=
   | 'H' :: h => some (natsOfHex h)
   | _ => none
 
-/-- `SCHED <rec|json|agg> <cap> <table> <tail> <chunks> <faultAt|-> <readFailAt|-> <seed>` -/
+/-- `SCHED <rec|agg> <cap> <table> <tail> <chunks> <faultAt|-> <readFailAt|-> <seed>` -/
 def handleSched (fields : List String) : String :=
   match fields with
   | [variant, cap, table, tail, chunks, fault, rfail, seed] =>
     let toks := fun (s : String) => (s.splitOn " ").filter (· ≠ "")
     let i : SimIn :=
-      { agg := variant == "agg", json := variant == "json", cap := cap.toNat?.getD 1000,
+      { agg := variant == "agg", cap := cap.toNat?.getD 1000,
         table := (toks table).map rowTok,
         tail := (toks tail).filterMap rowTok,
         chunks := (toks chunks).filterMap rowTok,
         faultAt := optNat fault, readFailAt := optNat rfail, seed := seed.toNat?.getD 0 }
     let o := simulate i
-    s!"OK reader={showRd o.reader} rend={showRn o.rend} errs={o.errs} joinErr={if o.joinErr then 1 else 0} " ++
+    s!"OK reader={showRd o.reader} rend={showRn o.rend} errs={o.errs} rderrs={o.rdErrs} joinErr={if o.joinErr then 1 else 0} " ++
     s!"written={hexOfNats o.written} consumed={o.consumed} maxchan={o.maxChan} steps={o.steps} " ++
     s!"stuck={if o.stuck then 1 else 0}"
   | _ => "BADREQ sched"
